@@ -3,6 +3,7 @@
 the patch is applied to a scratch worktree of /repo's HEAD and the checks run with VERIF_REPO pointing there.
 Usage: try_seeded.py <patch.diff> <ID>...      (VERIF_TIER=thorough for the thorough tier)"""
 import subprocess, sys, os, json, glob, tempfile, shutil
+ROOT = os.path.dirname(os.path.dirname(os.path.abspath(__file__)))     # the tree this tool lives in (/verif, or a worktree of it)
 patch = os.path.abspath(sys.argv[1])
 ids = sys.argv[2:]
 tier = os.environ.get("VERIF_TIER", "quick")
@@ -13,14 +14,14 @@ try:
     subprocess.check_call(["git", "-C", wt, "apply", patch])
     env = dict(os.environ, VERIF_REPO=wt)
     for i in ids:
-        r = subprocess.run(["./check", i, "--tier", tier], cwd="/verif", stdout=subprocess.PIPE, stderr=subprocess.STDOUT, text=True, env=env)
+        r = subprocess.run(["./check", i, "--tier", tier], cwd=ROOT, stdout=subprocess.PIPE, stderr=subprocess.STDOUT, text=True, env=env)
         last = [l for l in r.stdout.strip().split("\n") if l.startswith(("VIOLATION", "OK", "KNOWN"))]
         print("  %s exit=%d %s" % (i, r.returncode, " / ".join(last)[:300] or r.stdout[-300:]))
-        for f in sorted(glob.glob("/verif/replays/%s-*.json" % i))[:1]:
+        for f in sorted(glob.glob(os.path.join(ROOT, "replays", "%s-*.json" % i)))[:1]:
             d = json.load(open(f))
             print("     replay:", [o[:70] for o in d.get("ops", [])][:6], json.dumps(d.get("first_divergence") or d.get("broken"))[:260])
 finally:
     subprocess.call(["git", "-C", "/repo", "worktree", "remove", "--force", wt])
     shutil.rmtree(scratch, ignore_errors=True)
     # Gen/*.lean was regenerated from the mutated tree by the checks: bring it back to the real tree
-    subprocess.call(["python3", "/verif/tools/extract.py"])
+    subprocess.call(["python3", os.path.join(ROOT, "tools", "extract.py")])
